@@ -11,7 +11,9 @@ from vlib.spec import lex
 
 STRS = ["a", "ab", "abc", "b"]
 REGS = ["a+", "ab?", "[ab]+", "a"]
-POOL = [("str", s) for s in STRS] + [("regex", r) for r in REGS]
+# a custom (Python) recogniser: ranks like a regex recogniser in the documented order; it matches b+
+CUSTOMS = ["b+"]
+POOL = [("str", s) for s in STRS] + [("regex", r) for r in REGS] + [("custom", r) for r in CUSTOMS]
 
 
 def term_decl(i, kind, body, prio, prefer, mark):
@@ -22,7 +24,7 @@ def term_decl(i, kind, body, prio, prefer, mark):
         meta.append("prefer")
     if mark:
         meta.append(mark)
-    b = f"'{body}'" if kind == "str" else f"/{body}/"
+    b = f"'{body}'" if kind == "str" else (f"/{body}/" if kind == "regex" else "")
     return f"T{i}: {b}" + (" {" + ", ".join(meta) + "}" if meta else "") + ";"
 
 
@@ -76,8 +78,18 @@ def lex_worker(args):
                                   {"family": "generic", "module": "vlib.monitors.lexmon", "function": "replay",
                                    "case": [[list(c) for c in cands], shape, ignore_case, keyword],
                                    "params": {k: v for k, v in params.items() if k != "only"}}))
+    recs = {}
+    for i, c in enumerate(cands):
+        if c[0] == "custom":
+            rx = re.compile(c[1], re.IGNORECASE if ignore_case else 0)
+
+            def rec(inp, pos, _rx=rx):
+                mm = _rx.match(inp, pos)
+                return mm.group() if mm and mm.end() > pos else None
+            recs[f"T{i}"] = rec
     try:
-        g = Grammar.from_string(text, ignore_case=ignore_case)
+        g = Grammar.from_string(text, ignore_case=ignore_case, recognizers=recs) if recs else \
+            Grammar.from_string(text, ignore_case=ignore_case)
         lr = Parser(g, consume_input=False, build_tree=True, ws=None)
         glr = GLRParser(g, consume_input=False, ws=None)
     except Exception as e:  # noqa
@@ -96,8 +108,8 @@ def lex_worker(args):
             for i in expected:
                 t = ms[i](inp, pos)
                 if t:
-                    M.append({"name": f"T{i}", "prio": cands[i][2], "kind": cands[i][0], "prefer": cands[i][3],
-                              "text": t})
+                    M.append({"name": f"T{i}", "prio": cands[i][2], "kind": "str" if cands[i][0] == "str" else "regex",
+                              "prefer": cands[i][3], "text": t})
             if len(M) > 1:
                 res["nontrivial"] += 1
             try:
